@@ -112,20 +112,62 @@ def generate():
     # queueInLoop (always behind what is already queued), and whether the functor keeps the object alive
     out.append("inductive Dispatch | run | queue\nderiving DecidableEq, Repr\n")
 
+    out.append("/-- what a queued functor holds of the connection: the raw `this`, a reference of its own\n"
+               "(`shared_from_this()` bound into it), or a weak reference that is locked when it runs -/\n"
+               "inductive Hold | raw | strong | weak\nderiving DecidableEq, Repr\n")
+
+    def hold_of(call):
+        """how the functor built in this runInLoop/queueInLoop call refers to the connection"""
+        def is_weak(x):
+            if x.get("kind") == "DeclRefExpr" and x.get("referencedDecl", {}).get("name") == "makeWeakCallback":
+                return True
+            q = x.get("type", {}).get("qualType", "")
+            return x.get("kind") in ("CallExpr", "CXXFunctionalCastExpr", "CXXConstructExpr", "CXXTemporaryObjectExpr") and (
+                q.startswith("WeakCallback<") or q.startswith("muduo::WeakCallback<") or q.startswith("std::weak_ptr<"))
+        weak = any(is_weak(x) for x in walk(call))
+        shared = any(x.get("kind") == "MemberExpr" and x.get("name") == "shared_from_this" for x in walk(call))
+        raw = any(x.get("kind") == "CXXThisExpr" for a in kids(call)[1:] for x in walk(a))
+        if weak:
+            return "weak"
+        if shared:
+            return "strong"
+        if raw:
+            return "raw"
+        raise ExtractError("cannot tell what the functor of a hand-off holds of the connection")
+
+    HOLD_TEXT = {"strong": "a reference (shared_from_this)", "raw": "the raw `this`", "weak": "a weak reference"}
+
+    def loop_calls(node):
+        return [n for n in walk(node) if n.get("kind") == "CXXMemberCallExpr" and kids(n)
+                and strip(kids(n)[0]).get("kind") == "MemberExpr" and strip(kids(n)[0]).get("name") in ("runInLoop", "queueInLoop")]
+
     def handoff(fn, nm, which=0):
-        calls = [n for n in walk(body_of(fn)) if n.get("kind") == "CXXMemberCallExpr" and kids(n)
-                 and strip(kids(n)[0]).get("kind") == "MemberExpr" and strip(kids(n)[0]).get("name") in ("runInLoop", "queueInLoop")]
+        calls = loop_calls(body_of(fn))
         if len(calls) <= which:
             raise ExtractError("%s: no runInLoop/queueInLoop hand-off found" % nm)
         call = calls[which]
         kind = strip(kids(call)[0])["name"]
-        holds = any(x.get("kind") == "MemberExpr" and x.get("name") == "shared_from_this" for x in walk(call))
-        raw = any(x.get("kind") == "CXXThisExpr" and True for a in kids(call)[1:] for x in walk(a)
-                  if x.get("kind") == "CXXThisExpr") and not holds
-        out.append("/-- `%s`: hand-off through `%s`, functor holds %s -/\ndef %sDispatch : Dispatch := .%s\ndef %sHoldsRef : Bool := %s\n"
-                   % (nm, kind, "a reference (shared_from_this)" if holds else "the raw `this`", nm,
-                      "run" if kind == "runInLoop" else "queue", nm, "true" if holds else "false"))
-        return raw
+        h = hold_of(call)
+        out.append("/-- `%s`: hand-off through `%s`, functor holds %s -/\ndef %sDispatch : Dispatch := .%s\ndef %sHold : Hold := .%s\n"
+                   "def %sHoldsRef : Bool := %s\n"
+                   % (nm, kind, HOLD_TEXT[h], nm, "run" if kind == "runInLoop" else "queue", nm, h, nm, "true" if h == "strong" else "false"))
+        return h == "raw"
+
+    def notify_hold(fns, member, nm, doc):
+        """the queueInLoop calls that deliver a user notification (`member` callback) - all sites must agree"""
+        hs = []
+        for fn in fns:
+            for call in loop_calls(body_of(fn)):
+                if mentions(call, member):
+                    if strip(kids(call)[0])["name"] != "queueInLoop":
+                        raise ExtractError("%s: the notification is not queued (runInLoop)" % nm)
+                    hs.append(hold_of(call))
+        if not hs:
+            raise ExtractError("%s: no queueInLoop hand-off of %s found" % (nm, member))
+        if len(set(hs)) != 1:
+            raise ExtractError("%s: the hand-off sites of %s disagree (%s)" % (nm, member, ", ".join(hs)))
+        out.append("/-- %s: queued (%d site%s), functor holds %s -/\ndef %sHold : Hold := .%s\n"
+                   % (doc, len(hs), "" if len(hs) == 1 else "s", HOLD_TEXT[hs[0]], nm, hs[0]))
 
     sends = [f for d in docs for f in walk(d) if f.get("kind") == "CXXMethodDecl" and f.get("name") == "send" and body_of(f)
              and any(mentions(if_cond(i), "state_") for i in find_ifs(f))]
@@ -145,15 +187,18 @@ def generate():
               and len(kids(n)) == 1]
     if len(hand) == 1 and not direct and mentions(hand[0], "shutdownInLoop"):
         kind = strip(kids(hand[0])[0])["name"]
-        holds = any(x.get("kind") == "MemberExpr" and x.get("name") == "shared_from_this" for x in walk(hand[0]))
-        out.append("/-- `handleWrite`: the deferred half-close goes through `%s` -/\ndef drainShutdownDispatch : Dispatch := .%s\n"
-                   "def drainShutdownHoldsRef : Bool := %s\n" % (kind, "run" if kind == "runInLoop" else "queue", "true" if holds else "false"))
+        h = hold_of(hand[0])
+        out.append("/-- `handleWrite`: the deferred half-close goes through `%s`, functor holds %s -/\ndef drainShutdownDispatch : Dispatch := .%s\n"
+                   "def drainShutdownHold : Hold := .%s\ndef drainShutdownHoldsRef : Bool := %s\n"
+                   % (kind, HOLD_TEXT[h], "run" if kind == "runInLoop" else "queue", h, "true" if h == "strong" else "false"))
     elif len(direct) == 1 and not hand:
         out.append("/-- `handleWrite`: the deferred half-close is a direct call of `shutdownInLoop()` -/\n"
-                   "def drainShutdownDispatch : Dispatch := .run\ndef drainShutdownHoldsRef : Bool := false\n")
+                   "def drainShutdownDispatch : Dispatch := .run\ndef drainShutdownHold : Hold := .raw\ndef drainShutdownHoldsRef : Bool := false\n")
     else:
         raise ExtractError("handleWrite: cannot tell how the deferred half-close is performed")
     handoff(fc, "forceClose")
+    notify_hold([sil, hw], "writeCompleteCallback_", "wc", "the write-complete notification (`sendInLoop`, `handleWrite`)")
+    notify_hold([sil], "highWaterMarkCallback_", "hwm", "the high-water-mark notification (`sendInLoop`)")
     handoff(the_function(docs, "startRead"), "startRead")
     handoff(the_function(docs, "stopRead"), "stopRead")
 
